@@ -55,7 +55,7 @@ THEOREMS = [
     "FaxVerif.C03.label_mismatch_refused",
     "FaxVerif.C03.column_shapes",
     "FaxVerif.C03.neg_bool_counterexample",
-    "FaxVerif.C03.not_int_counterexample",
+    "FaxVerif.C03.not_is_bool_of_a_number",
     "FaxVerif.C03.ite_bool_counterexample",
 ]
 RULE = (
@@ -98,8 +98,9 @@ LEVEL_NOTE = (
     "typing model for all queries: soundness of the expected types, names/order/width/labels of the final shape. Not proved: that the TRANSLATOR "
     "assigns the model's type to every query (evaluated per generated program through SchemaOk) and 'body writes exactly the booked variables' for "
     "all queries. Where the translator's own rule is not the type of Python's value the model follows Python and the difference is a proved "
-    "counterexample outside the generated stream: -b (bool operand) is booked bool, `not i` is booked int, a conditional with boolean arms is "
-    "booked double (neg_bool_/not_int_/ite_bool_counterexample); distinct names need distinct dict keys (final_names_distinct_partial). "
+    "counterexample outside the generated stream: -b (bool operand) is booked bool, a conditional with boolean arms is "
+    "booked double (neg_bool_/ite_bool_counterexample; `not` of a number is bool in the model and, since fix ea7911a, in the translator: "
+    "not_is_bool_of_a_number, exercised by the typing-rules stream); distinct names need distinct dict keys (final_names_distinct_partial). "
     "Known: unique_name = name ++ index is not injective (column x1 at counter 0 vs column x at counter 10)."
 )
 TECHNIQUE = "Lean 4 theorems on the translator model and on a typing model of the query language (type soundness) + decidable schema predicate (Lean) evaluated on the implementation's output against the typing model's columns"
@@ -375,6 +376,9 @@ def rule_exprs():
         ("and", {"k": "and", "a": J("b"), "b": C(">", J("d"), Dbl("0.5"))}),
         ("or", {"k": "or", "a": C(">", J("i"), I(1)), "b": J("b")}),
         ("not", {"k": "not", "a": J("b")}),
+        ("not:int", {"k": "not", "a": J("i")}),
+        ("not:float", {"k": "not", "a": J("f")}),
+        ("not:double", {"k": "not", "a": B("*", J("d"), I(2))}),
         ("Count", T("Count", J("vs"))),
         ("Count:where", T("Count", WH(J("kids"), "k", K("b")))),
         ("Sum:double", T("Sum", J("vs"))),
